@@ -10,9 +10,10 @@ from fractions import Fraction
 import numpy as np
 
 from .. import t2_tables
-from ..core import err_kind
+from ..core import err_kind, scratch_dir
 
 ID = "C18"
+SHAPES = False      # layout / object-history dimensions do not apply: the inputs are names and files
 MODULES = ["TWV.Properties.C18"]
 TRANSLATORS = ["t2_tables"]
 TIE = ("translator T2 regenerates the dataset tables from the loader modules of the working tree (the C18 table theorems are "
@@ -57,6 +58,9 @@ def cases(rng, tier):
     remote = [n for n in names if not n.startswith("sandvine")]
     for n in rng.sample(remote, 4):
         yield {"name": n, "unpack": False, "doc": n, "envseq": True}
+    # a data home on another file system than the system temporary directory (a RAM disk, a network share)
+    for n in rng.sample(remote, 6):
+        yield {"name": n, "unpack": rng.random() < 0.5, "doc": n, "home_fs": "other"}
 
 
 def request(c):
@@ -77,7 +81,7 @@ def run_impl(c):
     from traffic_weaver.datasets import load_dataset
     t = tables()
     by_url = {r["url"]: r for r in t["remotes"]}
-    home = tempfile.mkdtemp(prefix="twv-c18-")
+    home = scratch_dir("twv-c18-", other_fs=c.get("home_fs") == "other")
     seen = {"urls": [], "paths": {}}
 
     def fake_retrieve(url, path):
@@ -213,7 +217,11 @@ def tags(c, io, mo):
     if c["doc"] is None:
         return ["unknown-name", f"error={io.get('err')}"]
     grp = "bundled" if c["name"].startswith("sandvine") else "remote"
-    return [grp, "unpack" if c["unpack"] else "packed", "as-documented" if c["name"] == c["doc"] else "variant"]
+    t = [grp, "unpack" if c["unpack"] else "packed", "as-documented" if c["name"] == c["doc"] else "variant"]
+    if c.get("home_fs") == "other":
+        from ..core import other_filesystem_root
+        t.append("data-home-on-another-file-system" if other_filesystem_root() else "data-home-on-another-file-system:none-available")
+    return t
 
 
 def nontrivial_key(c, io, mo):
